@@ -65,6 +65,14 @@ let handle (toks : string list) : string =
     let (r1, c1) = sender_cached keccak256 e (parse_signer sg1) t None in
     let (r2, _) = sender_cached keccak256 e (parse_signer sg2) t c1 in
     str_res r1 ^ " | " ^ str_res r2
+  | ["sendern"; sgs; t; tbl] ->
+    (* types.Sender under each signer of the ';'-separated list in turn, on one transaction object *)
+    let e = ecrec_of (parse_table tbl) in
+    let t = parse_tx t in
+    let (_, outs) = List.fold_left (fun (c, acc) sg ->
+        let (r, c') = sender_cached keccak256 e (parse_signer sg) t c in (c', str_res r :: acc))
+        (None, []) (String.split_on_char ';' sgs) in
+    String.concat " | " (List.rev outs)
   | ["sigvalues"; sg; s] ->
     (match signature_values (parse_signer sg) (bytes_of_hex s) with
      | Ok ((r, s), v) -> "ok " ^ hex_of_n r ^ " " ^ hex_of_n s ^ " " ^ hex_of_n v
